@@ -345,6 +345,10 @@ AGG_LOOPS[(f"{AGG}.graddrop.GradDrop.forward", 0)] = graddrop_loop()
 
 def spec_graddrop(it, J, m, n, cfg, cx):
     ps = cx.ghost.get("graddrop_PS")
+    if ps is None and cx.feasible(z3.And(lift(m) != 0, lift(n) != 0)):
+        # the specification is stated through the partial sums of the accumulation loop: without that loop (vectorised
+        # code) this sidecar contract does not apply -> undecided, never a refutation
+        raise KeyError("the accumulation loop of GradDrop.forward (sidecar loop contract) was not executed on this path")
     with cx.mute():
         empty = z3.Or(lift(m) == 0, lift(n) == 0)
         zeros = P.call(it, "torch.zeros", [n], {"dtype": J.dtype})
@@ -535,7 +539,7 @@ AGG_LOOPS[(f"{AGG}.pcgrad._PCGradWeighting.forward", 1)] = _i
 def spec_pcgrad(it, J, m, n, cfg, cx):
     W = cx.ghost.get("pc_W")
     if W is None:
-        return []
+        raise KeyError("the projection loops of PCGrad (sidecar loop contracts) were not executed on this path")
     w = ATen(W(lift(m)), [m], J.dtype)
     return [(TRUE, vecmat(it, w, J))]
 
